@@ -15,6 +15,8 @@ def cmp_doc(i, m):
         return False
     if mv.get("reorder") == "f":          # the model must satisfy its own theorem on every case
         return False
+    if iv["valid"] != "-" and mv.get("closed") != "t":   # hypothesis of the theorem: valid schemas are closed
+        return False
     return iv["ast"] == "unparseable" or iv["ast"] == mv["ast"]
 
 
